@@ -49,7 +49,7 @@ from lib.core import Ctx, enc, rat
 from gen import scenario as gsc
 
 ID = "C07"
-LEAN_TARGETS = ["AiuVerif.Props.C07"]
+LEAN_TARGETS = ["AiuVerif.Props.C07", "AiuVerif.Props.C07Link"]
 THEOREMS = [
     "AiuVerif.C07.rigid_shift",
     "AiuVerif.C07.rigid_shift_counters",
@@ -61,6 +61,7 @@ THEOREMS = [
     "AiuVerif.C07.epoch_counters",
     "AiuVerif.C07.epoch_dependent_chain3",
     "AiuVerif.C07.old_formula_displaces_rank0",
+    "AiuVerif.C07.epoch_invariant_all_ranks",   # any per-rank constants at once (with C05: K per rank is invisible)
 ]
 RULE = ("scenario cases: generated chain-allreduce traces (R ranks, G groups, epochs, host offsets, jitter, naming "
         "variant) pushed through the real ingestion + prefix pipeline; synthetic cases: event lists in the same "
